@@ -108,6 +108,21 @@ pub fn slice(src: &str, spec_path: &str) -> Value {
                     }
                 }
             }
+        } else if let Some(name) = item.get("let_with_next").and_then(|v| v.as_str()) {
+            // a `let [mut] NAME = …` whose initialiser contains `must_contain`, in any block of the
+            // function, together with the statement that directly follows it in the same block
+            let needle = item.get("must_contain").and_then(|v| v.as_str()).unwrap_or("");
+            for l in &sl.lists {
+                for (i, s) in l.iter().enumerate() {
+                    if let_name(s).as_deref() == Some(name) && flat(s).contains(needle) {
+                        let mut v = vec![s.clone()];
+                        if let Some(n) = l.get(i + 1) {
+                            v.push(n.clone());
+                        }
+                        picked.push(v);
+                    }
+                }
+            }
         } else if let Some(prefix) = item.get("for_over").and_then(|v| v.as_str()) {
             let pre: Vec<String> = item
                 .get("with_preceding_lets")
